@@ -23,6 +23,8 @@ PLANS = {
     "C03": plan(shards(20, 240)),
     "C05": plan(shards(20, 240)),
     "C08": plan(shards(20, 240)),
+    "C09": plan(shards(20, 240)),
+    "C10": plan(shards(40, 400, mode="script", n=12), shards(25, 300, mode="faults", n=3), shards(15, 120, mode="shutdown-race", n=1)),
     "C12": plan(shards(20, 240)),
     "C13": plan(shards(20, 240)),
     "C07": plan(shards(20, 240)),
